@@ -304,7 +304,7 @@ Proof.
         as (ex & X1 & X2 & X3 & _).
       exists (gsC0 ++ [gam]). split.
       * split; [apply Forall_app; split; [exact HAC|constructor; [exact HA|constructor]]|].
-        exists (psC ++ ex). cbn [set_stack set_ps s_cbOrb]. rewrite E12. split; [exact X1|]. split.
+        exists (psC ++ ex). unfold st3. cbn [set_stack set_ps s_cbOrb]. rewrite E12. split; [exact X1|]. split.
         -- intros x y Hin. apply in_app_or in Hin. destruct Hin as [Hin|Hin].
            ++ destruct (HpC x y Hin) as (gm & G1 & G2). exists gm. split; [apply in_or_app; left; exact G1|exact G2].
            ++ destruct (X2 x y Hin) as [G1 G2]. exists gam. split; [apply in_or_app; right; left; reflexivity|split; assumption].
